@@ -28,7 +28,7 @@ ASSUMPTIONS = ["an exception raised at a call boundary stands for any failure at
                "temp files are not output files: they may exist under the run's private TMPDIR"]
 REAL_VS_STUB = {"real": ["gen_params, gen_seq, gen_coords end to end, vermouth DeferredFileWriter, real file system"],
                 "stub": ["tqdm disabled", "sys.argv pinned", "sys.settrace crash injector"]}
-PROBES = ["gmx_maxbackup_minus_one", "backups_without_output_file", "publishing_move_fails_once", "output_path_is_symlink", "publish_across_filesystems", "relative_output_path", "crash_between_open_and_write", "existing_file", "existing_backups", "later_success_other_path",
+PROBES = ["rerun_over_own_earlier_output", "gmx_maxbackup_minus_one", "backups_without_output_file", "publishing_move_fails_once", "output_path_is_symlink", "publish_across_filesystems", "relative_output_path", "crash_between_open_and_write", "existing_file", "existing_backups", "later_success_other_path",
           "natural_failure", "prog_gen_params", "prog_gen_seq", "prog_gen_coords", "success_backup_checked"]
 EXHAUSTIVE = {}
 
@@ -320,6 +320,26 @@ def run_job(job):
             for clause, msg, facts in _check_success(job, pre_map, r):
                 if not any(v["clause"] == clause for v in viols):
                     viols.append({"property": PROP, "clause": clause, "msg": "[exdev] " + msg, "seq": 0, "facts": facts})
+    # ---- the file already at the output path is the result of the same job (a re-run): it is a previous file like any
+    # other - backed up, and the new file put in place
+    if job["prog"] in ("gen_params", "gen_coords") and cal.get("out_text"):
+        pre2 = [[f, c] for f, c in (op.get("pre_files") or []) if f != op["out"]] + [[op["out"], "; earlier run\n" + cal["out_text"]]]
+        job2 = dict(job, op=dict(op, pre_files=pre2, pre_links=[]), state="file")
+        pm2 = {f: c for f, c in pre2}
+        res = zygotes.run_history(hs, {"ops": [job2["op"]], "roundtrip": False}, timeout=300)
+        r = res["ops"][0]
+        evals += 1
+        probes["rerun_over_own_earlier_output"] = 1
+        if r["status"] != "ok":
+            viols.append({"property": PROP, "clause": "success.incomplete", "seq": 0, "facts": {"rerun": True},
+                          "msg": f"{job['prog']} fails when its own earlier output lies at the output path: {r.get('error')}"})
+        else:
+            if r.get("out_text") != cal.get("out_text"):
+                viols.append({"property": PROP, "clause": "success.incomplete", "seq": 0, "facts": {"rerun": True},
+                              "msg": f"{job['prog']} succeeded over its own earlier output but {op['out']} does not hold the new file"})
+            for clause, msg, facts in _check_success(job2, pm2, r):
+                if not any(v["clause"] == clause for v in viols):
+                    viols.append({"property": PROP, "clause": clause, "msg": "[re-run] " + msg, "seq": 0, "facts": facts})
     # ---- environment: GMX_MAXBACKUP=-1 (GROMACS' switch for "no backups") must not make polyply drop the previous file
     if job["prog"] in ("gen_params", "gen_coords") and op["out"] in pre_map:
         res = zygotes.run_history(hs, {"ops": [dict(op, env={"GMX_MAXBACKUP": "-1"})], "roundtrip": False}, timeout=300)
